@@ -11,8 +11,10 @@ from ..par import pmap
 
 NS = "https://ns.dataone.org/service/types/v2.0#SystemMetadata"
 PIDS = ["pid-1", "doi:10.18739/A2901ZH2M", "ünïcode/pid:✓\U0001F600", "shared", "gone"]
-LONG_PIDS = ["漢" * 1100 + "/v1", "x" * 2047 + "é/v2"]  # UTF-8 longer than the character count
-FORMATS = [None, "fmt://a", "b"]
+LONG_PIDS = ["漢" * 1100 + "/v1", "x" * 2047 + "é/v2",  # UTF-8 longer than the character count
+             # strings that are NOT in Unicode normal form C (or KC): H is taken over the UTF-8 bytes of the string as given
+             "cafe\u0301/1", "\u212b-unit", "\uf900\uf901", "\u1100\u1161\u11a8", "\ufb01le", "e\u0301\u0323"]
+FORMATS = [None, "fmt://a", "b", "fmt/cafe\u0301"]
 CONTENTS = {"c1": pattern(10, 1), "c2": pattern(5000, 2), "c3": b"", "c4": pattern(77, 4)}
 DOCS = {"d1": b"<a/>", "d2": pattern(4100, 8)}
 
